@@ -6,6 +6,7 @@ import (
 	"sync/atomic"
 
 	"github.com/openfga/openfga/internal/listobjects/pipeline/internal/track"
+	"github.com/openfga/openfga/internal/verifhook"
 )
 
 // Membership represents a worker's participation in a [CycleGroup].
@@ -47,6 +48,7 @@ func (m *Membership) IsLeader() bool {
 
 // SignalReady indicates that this member's non-cyclical inputs are exhausted.
 func (m *Membership) SignalReady() {
+	verifhook.Event("pl.ready", m.label)
 	m.reporter.Report()
 	m.reporter.Dec()
 }
@@ -71,6 +73,7 @@ func (m *Membership) Sleep(ctx context.Context) {
 // only the first call has any effect.
 func (m *Membership) Wake() {
 	if !m.awake.Swap(true) {
+		verifhook.Event("pl.wake", m.label)
 		close(m.wake)
 	}
 }
@@ -143,6 +146,7 @@ func (g *CycleGroup) Join(label string) *Membership {
 	g.head.leader = true
 
 	g.size++
+	verifhook.Event("pl.join", g.statusPool, label)
 	// Each member starts with an in-flight count of 1. This is decremented
 	// by SignalReady once the member's non-cyclical inputs are exhausted,
 	// preventing the pool from reaching quiescence prematurely.
